@@ -161,6 +161,7 @@ def run_check(pid, tier, seed):
         model += proto.run_model(clines[i:i + CH])
     disagreements = []
     float_tie = None
+    random_tie = {"what": "cap lines with two or more start vectors (assumed random stream)", "lines": 0, "status": "holds"}
     for l, a, b in zip(clines, cimpl, model):
         if l.startswith("capf ") or l.startswith("capr "):
             # the double-precision model (Model/CapacityF.lean) is a SECOND, stricter tie (bit for bit) next to the `cap`
@@ -173,8 +174,19 @@ def run_check(pid, tier, seed):
                 float_tie.update(status="broken", first_disagreement={"line": l[:400], "implementation": a[:300],
                                                                         "model_after_log2": (core.canon_capf(b) if b.startswith("ok") else b)[:300]})
             continue
+        if l.startswith("cap ") and ";" in l.split(" ")[4]:
+            # randomised mode: the comparison assumes HOW the code consumes NumPy's random stream (one draw of n doubles per
+            # repeat); C17 fixes no random stream, so a disagreement here is recorded, never a verdict - the randomised
+            # results are judged against the certified enclosure by the direct sweep
+            random_tie["lines"] += 1
+            if not core.same(l, a, b) and random_tie["status"] == "holds":
+                random_tie.update(status="broken", first_disagreement={"line": l[:300], "implementation": a[:200], "model": b[:200]})
+            continue
         if not core.same(l, a, b):
             disagreements.append({"line": l, "implementation": a, "model": b})
+    if random_tie["status"] == "broken":
+        print("note: the randomised capacity runs no longer agree step by step with the model for the assumed start vectors "
+              "(the code may consume the random stream differently) - judged by the certified enclosure only")
     if float_tie and float_tie["status"] == "broken":
         print("note: the double-precision model of approximate_capacity no longer agrees bit for bit with the code "
               "(theorems of Props/C17c.lean are not tied on this run) - the exact-rational correspondence decides")
@@ -261,6 +273,7 @@ def run_check(pid, tier, seed):
             "changed_functions_since_validation": changed,
             **({"translation_tie": tie_state} if tie_state else {}),
             **({"double_precision_tie": float_tie} if float_tie else {}),
+            **({"random_stream_tie": random_tie} if random_tie["lines"] else {}),
             "implementation_line_coverage": function_line_coverage(m["lines_hit"]),
         },
         "assumptions": registry.ASSUMPTIONS + spec.get("assumptions", []),
